@@ -1354,7 +1354,9 @@ class VM:
         def splice_fn(*args):
             length = len(arr._elements)
             start = relative_index(args[0], length) if args else 0
-            if len(args) > 1:
+            if not args:
+                delete_count = 0
+            elif len(args) > 1:
                 delete_count = clamp_index(to_integer_or_infinity(args[1]), length - start)
             else:
                 delete_count = length - start
